@@ -207,7 +207,9 @@ Definition view_op (c : cfg) (v : view) (o : op) (ob : obs) : view :=
                    v_owed := v_owed v; v_pend := v_pend v; v_done := v_done v; v_seen := v_seen v;
                    v_direct := v_direct v; v_open2 := v_open2 v; v_inq := v_inq v; v_fwd := v_fwd v;
                    v_prev := v_prev v; v_err := v_err v; v_resent := v_resent v |} in
-      if (0 <? q) && negb (inb uid (ob_drops ob)) then set_session v1 (v_owed v1 ++ [uid]) (v_pend v1) (v_open2 v1) else v1
+      (* a message reported dropped (in-flight limit, identifiers, full queue) is not owed; one whose write merely failed is *)
+      if (0 <? q) && (negb (inb uid (ob_drops ob)) || ob_fault ob)
+      then set_session v1 (v_owed v1 ++ [uid]) (v_pend v1) (v_open2 v1) else v1
   | InPublish qos pid _ uid now =>
       let o2 := if (qos =? 2) && negb (existsb (fun e => x_pid e =? pid) (v_open2 v))
                 then v_open2 v ++ [{| x_pid := pid; x_uid := uid; x_created := now; x_acked := false |}] else v_open2 v in
@@ -499,7 +501,7 @@ Definition chk11 (c : cfg) (v : view) (o : op) (ob : obs) (v' : view) : option v
        match rev (v_pend v') with p :: _ => V 1 (p_uid p) (p_pid p) 0 | [] => None end
      else None)
     (* clause 3: while the client is connected and has room, nothing queued for it is held back *)
-    (if v_conn v' && negb (ob_closed ob) then
+    (if v_conn v' && negb (ob_closed ob) && negb (ob_fault ob) then     (* a connection that cannot be written to is broken *)
        match v_owed v' with
        | u :: _ => if (v_v5 v' && (0 <? v_rm v')) then
                      if nlen (v_pend v') <? v_rm v' then V 3 u 0 0 else None
@@ -700,7 +702,10 @@ Definition kf_of (prop : N) (c : cfg) (s : st) (v v' : view) (t : taint) (o : op
       else if t_refused t then Some (tag "KF_C11_refused_retransmit_keeps_quota")
       else None
     else if cl =? 1 then
-      if existsb (fun p => inb (p_uid p) (t_marked t) || inb (p_uid p) (t_collided t)) (v_pend v')
+      (* a message the client still holds whose record is really gone from the session (v_prev v' = the snapshot after
+         this step) and whose loss one of the record-deleting defects explains *)
+      if existsb (fun p => (inb (p_uid p) (t_marked t) || inb (p_uid p) (t_collided t)) && negb (rec_for_pend p (v_prev v')))
+                 (v_pend v')
       then Some (tag "KF_C11_record_lost")
       else if t_resumed t then Some (tag "KF_C11_resume_resets_quota")
       else if t_sendq_high t then Some (tag "KF_C11_send_quota_raised")
